@@ -28,12 +28,17 @@ def _floats(tokens):
     return np.array([np.nan if t == NDV else float(t) for t in tokens], dtype=float)
 
 
-def _tokens(values):
+def _tokens(values, raw=False):
+    """Values -> tokens.  API reads: nan is the no-data token.  Raw file reads: FLOAT_NDV is."""
     if values is None:
         return None
     out = []
     for v in np.asarray(values).ravel().tolist():
-        if v is None or (isinstance(v, float) and (np.isnan(v) or abs(v - FLOAT_NDV) < 1e-40)):
+        if v is None:
+            out.append(NDV)
+        elif isinstance(v, float) and np.isnan(v):
+            out.append("nan-in-file" if raw else NDV)
+        elif raw and isinstance(v, float) and abs(v - FLOAT_NDV) < 1e-40:
             out.append(NDV)
         elif float(v) == int(v):
             out.append(int(v))
@@ -273,11 +278,11 @@ class Scene:
             if arr is not None:
                 vals = arr[:]
                 if vals.dtype.names:  # Surveys: keep the Depth column
-                    data = _tokens(vals[vals.dtype.names[0]])
+                    data = _tokens(vals[vals.dtype.names[0]], raw=True)
                 elif vals.dtype.kind in "OSU":
                     data = [v.decode() if isinstance(v, bytes) else str(v) for v in vals.tolist()]
                 else:
-                    data = _tokens(vals)
+                    data = _tokens(vals, raw=True)
             labels[lab.replace("⁄", "/")] = {"rows": rows, "data": data}
         out = {"labels": labels}
         oid = g.get("Concatenated object IDs")
